@@ -31,7 +31,7 @@ def tlaset(xs):
 
 def write(outdir, name, *, pair, role="server", paired=False, auto=False, wait=True,
           stored="none", storedC="none", defects=(), maxfail=1, maxdata=2, timely=True,
-          envclose=True, genmode="full", budget=0, hostile_from=0, emit="none", simdepth=0,
+          envclose=True, maxsleeps=2, genmode="full", budget=0, hostile_from=0, emit="none", simdepth=0,
           invariants=(), action_constraints=(), view=True, known_model_keys=None):
     if pair:
         mod = f'''---- MODULE {name} ----
@@ -79,6 +79,7 @@ CONSTANTS
  AdvMsgs <- c_Adv
  TimelyMode = {b(timely)}
  EnvClose = {b(envclose)}
+ MaxSleeps = {maxsleeps}
  GenMode = "{genmode}"
  HostileBudget = {budget}
  HostileFrom = {hostile_from}
